@@ -1,5 +1,7 @@
 import Goyang.Lemmas.Types
 import Goyang.Lemmas.TypesFuel
+import Goyang.Lemmas.TypesAdm
+import Goyang.Lemmas.TypesSpecErr
 /-
 C09 — type names bind lexically and derived types inherit the whole chain.
 
@@ -15,6 +17,8 @@ dictionary, fuel); the theorems hold for every environment, in particular for `E
 -/
 namespace Goyang.Props.C09
 open Goyang.Model Goyang.Model.Types Goyang.Spec.Types Goyang.Lemmas.Types
+open Goyang.Lemmas.TypesDefs Goyang.Lemmas.TypesComplete Goyang.Lemmas.TypesRestr Goyang.Lemmas.TypesAdm
+open Goyang.Lemmas.TypesSpecBind Goyang.Lemmas.TypesSpecChain Goyang.Lemmas.TypesSpecErr
 
 /-- **Lexical binding.**  Whatever typedef the resolver picks for a type statement `t` is the one the
 name denotes: for an unprefixed or own-prefixed name the typedef of the nearest enclosing scope
@@ -424,6 +428,205 @@ theorem fuel_suffices (reg : Registry) (root : Mod) (scope : List Stmt) (t : Stm
   · exact List.nodup_nil
   · intro k hk; cases hk
   · rw [hreg, hfuel]; simp
+
+/-! ## The hypothesis `Unambiguous` is unsatisfiable; its replacement
+
+`Spec.Types.Unambiguous reg` asks that no name denote two typedefs at *any* conceivable site, made-up
+enclosing statements included, and `Binds.lexical` accepts any scope list: a made-up container with
+two `typedef x` refutes it for every registry.  `cyclic_is_error` above is therefore vacuous; it is
+kept as it was and superseded by `cyclic_is_error_below`, whose hypothesis
+(`UnambiguousBelow reg site`: only the sites met while resolving the reference) is satisfiable
+(examples at the end of the file). -/
+
+/-- `Unambiguous` holds of no registry. -/
+theorem unambiguous_false (reg : Registry) : ¬ Unambiguous reg := by
+  intro h
+  let td1 : Stmt := Stmt.mk "typedef" true "x" "f" 2 1 []
+  let td2 : Stmt := Stmt.mk "typedef" true "x" "f" 3 1 []
+  let n : Stmt := Stmt.mk "container" true "c" "f" 1 1 [td1, td2]
+  let r : Mod := ⟨0, Stmt.mk "module" true "m" "f" 1 1 []⟩
+  have hd : declared n (baseName "x") = [td1, td2] := by rfl
+  have h1 : Binds reg r [n] "x" r td1 [n] :=
+    Binds.lexical [] n [] td1 (by decide) (by decide) rfl (by intro x hx; cases hx) (by rw [hd]; simp)
+  have h2 : Binds reg r [n] "x" r td2 [n] :=
+    Binds.lexical [] n [] td2 (by decide) (by decide) rfl (by intro x hx; cases hx) (by rw [hd]; simp)
+  have := (h _ _ _ _ _ _ _ _ _ h1 h2).2.1
+  simp [td1, td2] at this
+
+/-- **A cyclic definition is an error** (supersedes `cyclic_is_error`): a type statement that is
+defined in terms of itself or depends on one that is, is reported, whenever no name met while
+resolving it denotes two typedefs. -/
+theorem cyclic_is_error_below (env : Env) (fuel : Nat) (root : Mod) (scope : List Stmt) (t : Stmt)
+    (hU : UnambiguousBelow env.reg (root, scope, t))
+    (stack : List TypeKey) (ht : scopeKinds.contains t.kw = false) (hc : Cyclic env.reg (root, scope, t)) :
+    (resolveTypeF env fuel root scope t stack).errs ≠ [] :=
+  fun he => resolvable_not_cyclic' hU (resolve_errors env fuel root scope t stack ht he) hc
+
+/-! ## The executable specification and the relational one agree
+
+The runner judges every Go result by the executable rendering (`bindType`, `chainOf`, `finish`,
+`inherit`); the theorems above are stated against the relations.  These theorems tie the two. -/
+
+/-- Whatever typedef the executable binding answers is one the name `Binds` to. -/
+theorem spec_exec_binds_sound (reg : Registry) (root : Mod) (scope : List Stmt) (name : String) (m : Mod) (td : Stmt)
+    (sc : List Stmt) (h : bindType reg root scope name = .typedef m td sc) : Binds reg root scope name m td sc :=
+  bindType_sound reg root scope name m td sc h
+
+/-- **Binding.**  Where the executable binding makes a claim (it does not answer `ambiguous`: more than
+one candidate), it answers the typedef `d` iff the name `Binds` to `d`. -/
+theorem spec_exec_binds_iff (reg : Registry) (hid : SeqId reg) (root : Mod) (hroot : root ∈ reg.mods)
+    (scope : List Stmt) (name : String) (hna : bindType reg root scope name ≠ .ambiguous)
+    (m : Mod) (td : Stmt) (sc : List Stmt) :
+    bindType reg root scope name = .typedef m td sc ↔ Binds reg root scope name m td sc := by
+  constructor
+  · exact bindType_sound reg root scope name m td sc
+  · intro h
+    rcases bindType_complete reg hid root hroot scope name m td sc h with h1 | h1
+    · exact h1
+    · exact absurd h1 hna
+
+/-- … and it answers `unbound` only for a name that binds to nothing. -/
+theorem spec_exec_unbound (reg : Registry) (hid : SeqId reg) (root : Mod) (hroot : root ∈ reg.mods)
+    (scope : List Stmt) (name : String) (h : bindType reg root scope name = .unbound) (m : Mod) (td : Stmt) (sc : List Stmt) :
+    ¬ Binds reg root scope name m td sc := by
+  intro hb
+  rcases bindType_complete reg hid root hroot scope name m td sc hb with h1 | h1 <;> rw [h] at h1 <;> cases h1
+
+/-- **Derivation chain.**  When `chainOf` answers `ok kind layers`, the type statement has a
+derivation chain in the sense of `DerivesFrom` ending in the built-in `kind`, and the layers are
+what the statements of that chain say, link by link (`LayerOf`). -/
+theorem spec_exec_chain (reg : Registry) (fuel : Nat) (root : Mod) (scope : List Stmt) (t : Stmt) (vis : List Key)
+    (k : String) (ls : List Layer) (h : chainOf reg fuel root scope t vis = .ok k ls) :
+    ∃ chain, DerivesFrom reg root scope t k chain ∧ List.Forall₂ (LayerOf reg) chain ls :=
+  chainOf_sound reg (bindType_sound reg) fuel root scope t vis k ls h
+
+/-- … that chain is the only one, when no name met on the way denotes two typedefs. -/
+theorem spec_exec_chain_unique (reg : Registry) :
+    ∀ (root : Mod) (scope : List Stmt) (t : Stmt) (k k' : String) (c c' : List Link),
+      UnambiguousBelow reg (root, scope, t) →
+      DerivesFrom reg root scope t k c → DerivesFrom reg root scope t k' c' → k = k' ∧ c = c' := by
+  intro root scope t k k' c c' hU h
+  induction h generalizing k' c' with
+  | builtin hb =>
+    intro h'
+    cases h' with
+    | builtin _ => exact ⟨rfl, rfl⟩
+    | derived m td sc tt kind chain hbind _ _ => rw [Goyang.Lemmas.Types.binds_not_builtin hbind] at hb; cases hb
+  | derived m td sc tt kind chain hbind htt hd ih =>
+    intro h'
+    cases h' with
+    | builtin hb => rw [Goyang.Lemmas.Types.binds_not_builtin hbind] at hb; cases hb
+    | derived m' td' sc' tt' kind' chain' hbind' htt' hd' =>
+      obtain ⟨e1, e2, e3⟩ := hU _ (UsesStar.refl _) _ _ _ _ _ _ hbind hbind'
+      subst e1 e2 e3
+      rw [htt] at htt'
+      cases htt'
+      obtain ⟨hk, hc⟩ := ih _ _ (hU.step (UsesStar.tail (UsesStar.refl _) (Uses.base m td sc tt hbind htt))) hd'
+      subst hk hc
+      exact ⟨rfl, rfl⟩
+
+/-- **Inheritance.**  `inherit` over the layers of a chain computes the relational chain functions:
+base kind; units, default, path, fraction-digits, enum / bit members of the nearest statement that
+states them; all patterns. -/
+theorem spec_exec_inherits (reg : Registry) (chain : List Link) (ls : List Layer)
+    (h : List.Forall₂ (LayerOf reg) chain ls) (k : String) :
+    (inherit k ls).kind = k ∧
+    (inherit k ls).units = (chainUnits chain).getD "" ∧
+    (inherit k ls).default = chainDefault chain ∧
+    (inherit k ls).path = (chainPath chain).getD "" ∧
+    (inherit k ls).patterns = chainPatterns chain ∧
+    (inherit k ls).enum = (chainEnums chain).bind (assignValues "value" (-2147483648) 2147483647) ∧
+    (inherit k ls).bit = (chainBits chain).bind (assignValues "position" 0 4294967295) ∧
+    (inherit k ls).fd = ((chainFractionDigits chain).bind (fun f => f.arg.toNat?)).getD 0 :=
+  inherit_eq h k
+
+/-- **Union members.**  The members `inherit` reports are the accepted member types of the nearest
+type statement of the chain that has member types (none if there is none). -/
+theorem spec_exec_members (reg : Registry) (chain : List Link) (ls : List Layer)
+    (h : List.Forall₂ (LayerOf reg) chain ls) (k : String) :
+    ((∀ r s t, Link.ty r s t ∈ chain → t.all "type" = []) ∧ (inherit k ls).members = []) ∨
+    (∃ pre r s t post, chain = pre ++ Link.ty r s t :: post ∧ (∀ r' s' t', Link.ty r' s' t' ∈ pre → t'.all "type" = []) ∧
+        t.all "type" ≠ [] ∧ ∃ fuel vis, List.Forall₂
+          (fun ut st => finish (chainOf reg fuel r (t :: s) ut vis) = .ok st) (t.all "type") (inherit k ls).members) :=
+  inherit_members h k
+
+/-- **Acceptance.**  What the executable specification accepts (`finish (chainOf …) = ok st`) is
+`Resolvable`, and `st` carries the attributes of its derivation chain. -/
+theorem spec_exec_accepts (reg : Registry) (fuel : Nat) (root : Mod) (scope : List Stmt) (t : Stmt) (vis : List Key)
+    (st : SType) (h : finish (chainOf reg fuel root scope t vis) = .ok st) :
+    Resolvable reg root scope t ∧
+    ∃ chain, DerivesFrom reg root scope t st.kind chain ∧
+      st.units = (chainUnits chain).getD "" ∧ st.default = chainDefault chain ∧
+      st.path = (chainPath chain).getD "" ∧ st.patterns = chainPatterns chain ∧
+      st.enum = (chainEnums chain).bind (assignValues "value" (-2147483648) 2147483647) ∧
+      st.bit = (chainBits chain).bind (assignValues "position" 0 4294967295) ∧
+      st.fd = ((chainFractionDigits chain).bind (fun f => f.arg.toNat?)).getD 0 :=
+  finish_chainOf_sound reg (bindType_sound reg) fuel root scope t vis st h
+
+/-- **Rejection.**  The executable specification answers `error` (the verdict "an error is required")
+only for a type statement without a finite derivation: an unknown name or prefix, or a cyclic
+definition, somewhere below it.  (Hypotheses: sequence numbers identify the loaded modules; no name
+met on the way denotes two typedefs; type statements are identified by their position.) -/
+theorem spec_exec_error (reg : Registry) (hid : SeqId reg) (fuel : Nat) (root : Mod) (scope : List Stmt) (t : Stmt)
+    (hroot : root ∈ reg.mods) (hU : UnambiguousBelow reg (root, scope, t)) (hK : KeysIdentify reg (root, scope, t))
+    (h : chainOf reg fuel root scope t [] = .error) : ¬ Resolvable reg root scope t := by
+  intro hres
+  exact chainOf_not_error reg hid (root, scope, t) hU hK fuel root scope t [] hroot hres (UsesStar.refl _)
+    (fun k hk => by cases hk) h
+
+/-! ## Completeness: what the specification accepts is resolved without error -/
+
+/-- **Unknown and cyclic names are the only binding-level error sources.**  For a type statement
+with a finite derivation (`Resolvable`: every name on the way binds, no cycle) standing in the
+loaded set, `Type.resolve` raises no binding-level error — no unknown type, no unknown prefix, no
+cycle, no exhausted budget, none of the model's "cannot happen" records: every error it returns is
+a restriction error (range, length, enum, fraction-digits, identity base, pattern, …).
+Standing hypotheses (`Standing`): sequence numbers identify the loaded modules, every include is
+linked, import prefixes are distinct, no name met on the way denotes two typedefs, type statements
+are identified by their position. -/
+theorem resolve_complete_binding (env : Env) (root : Mod) (scope : List Stmt) (t : Stmt)
+    (hS : Standing env (root, scope, t))
+    (hroot : root ∈ env.reg.mods) (ht : t ∈ descendants root.stmt) (hkw : t.kw = "type")
+    (hscope : ∀ s ∈ scope, s ∈ descendants root.stmt)
+    (hres : Resolvable env.reg root scope t) (fuel : Nat) (hfuel : (allTypeKeys env.reg).length + 1 ≤ fuel) :
+    ∀ e ∈ (resolveTypeF env fuel root scope t []).errs, ¬ BindErr e ∧ e.cls ≠ "out-of-fuel" :=
+  resolve_noBind env (root, scope, t) hS fuel root scope t [] ⟨hroot, ht, hscope⟩ hkw hres (UsesStar.refl _)
+    (fun k hk => by cases hk) List.nodup_nil (fun k hk => by cases hk) (by simpa using hfuel)
+
+/-- **Completeness.**  A type statement the specification accepts (`Admissible`: a finite derivation
+along which every restriction passes its decidable side condition `typeOk` / `typedefOk`) is
+resolved without any error, to a type whose kind, fraction-digits, range and length are the ones
+the specification computes. -/
+theorem resolve_complete (env : Env) (root : Mod) (scope : List Stmt) (t : Stmt) (a : Attrs)
+    (hS : Standing env (root, scope, t))
+    (hroot : root ∈ env.reg.mods) (ht : t ∈ descendants root.stmt) (hkw : t.kw = "type")
+    (hscope : ∀ s ∈ scope, s ∈ descendants root.stmt)
+    (hadm : Admissible env root scope t a) (fuel : Nat) (hfuel : (allTypeKeys env.reg).length + 1 ≤ fuel) :
+    ∃ y, resolveTypeF env fuel root scope t [] = { ty := some y, errs := [] } ∧ attrsOf y = a :=
+  resolve_admissible env (root, scope, t) hS fuel root scope t [] a ⟨hroot, ht, hscope⟩ hkw hadm (UsesStar.refl _)
+    (fun k hk => by cases hk) List.nodup_nil (fun k hk => by cases hk) (by simpa using hfuel)
+
+/-- The converse (soundness of acceptance, no hypotheses on the loaded set): an error-free
+resolution is of a type statement the specification accepts. -/
+theorem resolve_accepts (env : Env) (fuel : Nat) (root : Mod) (scope : List Stmt) (t : Stmt) (stack : List TypeKey)
+    (ht : scopeKinds.contains t.kw = false) (h : (resolveTypeF env fuel root scope t stack).errs = []) :
+    ∃ a, Admissible env root scope t a := by
+  obtain ⟨y, hy⟩ := resolve_ty_some env fuel root scope t stack h
+  exact ⟨attrsOf y, resolve_ok_admissible env fuel root scope t stack y ht hy⟩
+
+/-- **The model reports an error iff the specification rejects.** -/
+theorem resolve_errors_iff (env : Env) (root : Mod) (scope : List Stmt) (t : Stmt)
+    (hS : Standing env (root, scope, t))
+    (hroot : root ∈ env.reg.mods) (ht : t ∈ descendants root.stmt) (hkw : t.kw = "type")
+    (hscope : ∀ s ∈ scope, s ∈ descendants root.stmt) (fuel : Nat) (hfuel : (allTypeKeys env.reg).length + 1 ≤ fuel) :
+    (resolveTypeF env fuel root scope t []).errs ≠ [] ↔ ¬ ∃ a, Admissible env root scope t a := by
+  constructor
+  · rintro hne ⟨a, hadm⟩
+    obtain ⟨y, hy, _⟩ := resolve_complete env root scope t a hS hroot ht hkw hscope hadm fuel hfuel
+    rw [hy] at hne
+    exact hne rfl
+  · intro hno he
+    exact hno (resolve_accepts env fuel root scope t [] (type_not_scope hkw) he)
 
 /-! ## Non-vacuity: concrete schemas on which the hypotheses of the theorems hold
 
